@@ -144,8 +144,14 @@ def apply(data, known=None):
     # one; they check what it does, so a wrong guess can only produce a report, never hide one.
     sigs = load_signatures()
     gone_sig = {}
+    sig_count = {}
+    for k, sg in sigs.items():
+        sig_count[(crate_of(k), json.dumps(sg))] = sig_count.get((crate_of(k), json.dumps(sg)), 0) + 1
+    # a short signature means something only when no other known function has it and it mentions a type of the project
+    telling = lambda k: len(sigs[k]) >= 3 or (len(sigs[k]) == 2 and sig_count[(crate_of(k), json.dumps(sigs[k]))] == 1 and
+                                               any("rapidquilt::" in part or "libpatch::" in part for part in sigs[k]))
     for k in known:
-        if k not in by_id and "{closure" not in k and k not in renames.values() and k in sigs and len(sigs[k]) >= 3:
+        if k not in by_id and "{closure" not in k and k not in renames.values() and k in sigs and telling(k):
             gone_sig.setdefault((crate_of(k), json.dumps(sigs[k])), []).append(k)
     unk_sig = {}
     for u in unknown:
